@@ -27,6 +27,11 @@ var errCiphertextTooShort = errors.New("ciphertext too short")
 type encryptor interface {
 	Encrypt(data []byte) ([]byte, error)
 	Decrypt(data []byte) ([]byte, error)
+	// EncryptFor and DecryptFor bind the ciphertext to the key of the entry it
+	// is written for (as additional authenticated data): the bytes of one
+	// entry's file are rejected when read as another entry.
+	EncryptFor(key string, data []byte) ([]byte, error)
+	DecryptFor(key string, data []byte) ([]byte, error)
 }
 
 // aesgcmEncryptor implements the encryptor interface using AES-GCM.
@@ -56,18 +61,34 @@ func newAESGCMEncryptor(r io.Reader, keyB64 string) (*aesgcmEncryptor, error) {
 }
 
 func (e *aesgcmEncryptor) Encrypt(data []byte) ([]byte, error) {
+	return e.seal(data, nil)
+}
+
+func (e *aesgcmEncryptor) Decrypt(data []byte) ([]byte, error) {
+	return e.open(data, nil)
+}
+
+func (e *aesgcmEncryptor) EncryptFor(key string, data []byte) ([]byte, error) {
+	return e.seal(data, []byte(key))
+}
+
+func (e *aesgcmEncryptor) DecryptFor(key string, data []byte) ([]byte, error) {
+	return e.open(data, []byte(key))
+}
+
+func (e *aesgcmEncryptor) seal(data, additionalData []byte) ([]byte, error) {
 	nonce := make([]byte, e.gcm.NonceSize())
 	if _, err := io.ReadFull(e.r, nonce); err != nil {
 		return nil, err
 	}
-	ciphertext := e.gcm.Seal(nonce, nonce, data, nil)
+	ciphertext := e.gcm.Seal(nonce, nonce, data, additionalData)
 	return ciphertext, nil
 }
 
-func (e *aesgcmEncryptor) Decrypt(data []byte) ([]byte, error) {
+func (e *aesgcmEncryptor) open(data, additionalData []byte) ([]byte, error) {
 	if len(data) < e.gcm.NonceSize() {
 		return nil, errCiphertextTooShort
 	}
 	nonce, ciphertext := data[:e.gcm.NonceSize()], data[e.gcm.NonceSize():]
-	return e.gcm.Open(ciphertext[:0], nonce, ciphertext, nil)
+	return e.gcm.Open(ciphertext[:0], nonce, ciphertext, additionalData)
 }
